@@ -96,10 +96,11 @@ def grammar_cases(tier, seed, work, stats, fams, pools):
         for i, st in enumerate(states):
             prods = sorted(tlaparse.to_json(st["prods"]))
             vp, tp = pools[i % len(pools)]
-            cases.append(dict(prods=prods, vpool=vp, tpool=tp, family="CFGGen"))
+            cases.append(dict(prods=prods, vpool=vp, tpool=tp, family="CFGGen", declare=(i % 7 == 3)))
     for prods in DIRECTED:
         for vp, tp in pools:
             cases.append(dict(prods=prods, vpool=vp, tpool=tp, family="directed"))
+            cases.append(dict(prods=prods, vpool=vp, tpool=tp, family="directed", declare=True))
     return cases
 
 
@@ -117,7 +118,7 @@ def generate(tier, seed, work, stats):
 
 def replay(case):
     from harness import cfgh, guard
-    g, start, tagged = cfgh.make(case["prods"], case["vpool"], case["tpool"])
+    g, start, tagged = cfgh.make(case["prods"], case["vpool"], case["tpool"], declare=case.get("declare", False))
     G = cfgh.project(g)
     evs = [{"op": "new", "G": G, "start": start, "prods": tagged}]
     Lw = case["L"]
